@@ -520,12 +520,14 @@ func matchLikePattern(text, pattern string) bool {
 	ti, pi := 0, 0
 	starIdx, matchIdx := -1, 0
 	for ti < len(text) {
-		if pi < len(pattern) && (pattern[pi] == '_' || pattern[pi] == text[ti]) {
-			ti++
-			pi++
-		} else if pi < len(pattern) && pattern[pi] == '%' {
+		// The pattern's '%' must be interpreted before the literal comparison,
+		// otherwise a '%' in the text is consumed as a literal match of it.
+		if pi < len(pattern) && pattern[pi] == '%' {
 			starIdx = pi
 			matchIdx = ti
+			pi++
+		} else if pi < len(pattern) && (pattern[pi] == '_' || pattern[pi] == text[ti]) {
+			ti++
 			pi++
 		} else if starIdx != -1 {
 			pi = starIdx + 1
